@@ -219,9 +219,23 @@ def access(case, res):
                 npw = token(rng)
                 S.passwords.add(npw)
                 S.ops.append(["passwd", c.name, c.user, tgt])
-                S.request(c, "passwd", {"user": tgt, "password": npw})
+                filefault = rng.random() < 0.25
+                if filefault:
+                    # the update of the credential file runs into a full disk / an I/O error: the change is refused (or not), the
+                    # model follows the answer; nothing of the attempt stays behind
+                    import errno as E
+                    call = rng.choice(["filewrite", "fsync", "rename"])
+                    S.sim.inject(call, 1, rng.choice([E.ENOSPC, E.EIO, E.EDQUOT]))
+                    S.sig("passwd-file-fault", call)
+                    S.stats["passwd_file_faults"] += 1
+                pq = S.request(c, "passwd", {"user": tgt, "password": npw})
+                if filefault:
+                    pq.may_refuse = True
                 S.stats["passwd_requests"] += 1
                 S.settle()
+                if filefault:
+                    for call in ("filewrite", "fsync", "rename"):
+                        S.sim.inject(call, 0, 0)
                 # effectiveness is judged from a different connection
                 old = None
                 for nm in ([tgt] if tgt in creds.users else []):
@@ -329,6 +343,52 @@ def manysessions(case, res):
         S.check_idle_baseline(st)
         S.shutdown()
         return S.ops[:20]
+    creds_case(case, res, body)
+
+
+@scenario("passwd-filefault")
+def passwd_filefault(case, res):
+    """authorised password changes whose update of the credential file fails at one of its steps (write, fsync, rename; full disk,
+    I/O error, quota): the change is answered (refused or not) exactly once, the credentials the daemon accepts afterwards agree with
+    the answer, and nothing of the attempt stays behind - no descriptor, no memory"""
+    import errno as E
+
+    def body(S, rng, creds, pool):
+        usable = sorted(n for n, u in creds.users.items() if u.get("hash") is None and not u.get("readonly"))
+        if not usable:
+            S.stats["filefault_no_account"] += 1
+            return []
+        for rnd in range(6):
+            u = rng.choice(usable)
+            c = S.connect("c%d" % rnd, rng.choice(["raw", "uds", "ws"]))
+            if c.transport == "ws":
+                S.handshake(c)
+            S.request(c, "authenticate", {"user": u, "password": creds.users[u]["password"]})
+            S.settle()
+            call = rng.choice(["filewrite", "fsync", "rename", "none"])
+            if call != "none":
+                S.sim.inject(call, rng.choice([1, 1, 2]), rng.choice([E.ENOSPC, E.EIO, E.EDQUOT]))
+            npw = token(rng)
+            S.passwords.add(npw)
+            p = S.request(c, "passwd", {"user": u, "password": npw})
+            p.may_refuse = call != "none"
+            S.settle()
+            for k in ("filewrite", "fsync", "rename"):
+                S.sim.inject(k, 0, 0)
+            S.stats["passwd_file_faults"] += 1 if call != "none" else 0
+            S.sig("passwd-file-fault", call, creds.users[u]["password"] == npw)
+            # what the daemon accepts now is what the model derived from the answer
+            v = S.connect("v%d" % rnd, "raw")
+            S.request(v, "authenticate", {"user": u, "password": creds.users[u]["password"]})
+            S.settle()
+            S.end(v)
+            S.end(c)
+            S.settle()
+        leak_scan(S)
+        st = S.close_all()
+        S.check_idle_baseline(st, heap=S.stats["passwd_ok"] == 0)
+        S.shutdown()
+        return S.ops[:10]
     creds_case(case, res, body)
 
 
